@@ -710,3 +710,4 @@ def _csm(last_left="&mut left", stride="min_align", gate="if align < min_align {
 m("x8-stepfn-mut-fresh-count", "C06", VM, _CSV_ORIG, _csm(last_left="&mut fresh"), "?")
 m("x8-stepfn-mut-stride-one", "C06", VM, _CSV_ORIG, _csm(stride="1"), "?")
 m("x8-stepfn-mut-no-gate", "C06", VM, _CSV_ORIG, _csm(gate=""), "?")
+m("x8-sweep-option-bitmap-none-dirty", "C05", BM, "            return inner.dirty_at(offset);\n        }\n        false", "            return inner.dirty_at(offset);\n        }\n        true", "R5.3.option_none_clean")
